@@ -121,6 +121,23 @@ def make_inputs(kind, attrs, seed, cplx=False):
         X, Y = two(X, 0, 2), two(Y, 0, 2)
         Xn, Yn = two(grid(field(2, 4, 100), 100), 100, 2), two(yf(field(4, 4, 100, 4), 100), 100, 2)
         dim = ("t", "run")
+    elif kind == "aux":
+        # auxiliary non-index coordinates: a 2-D one over the (stacked) feature dims and a 1-D one along the sample dim
+        def aux(o):
+            o = o.assign_coords(region=(("lat", "lon"), np.arange(6).reshape(3, 2) % 3))
+            return o.assign_coords(season=("time", np.arange(o.sizes["time"]) % 4))
+        X, Xn = aux(X), aux(Xn)
+        Y = Y.assign_coords(network=("station", ["n1", "n1", "n2", "n2"]))
+        Yn = Yn.assign_coords(network=("station", ["n1", "n1", "n2", "n2"]))
+    elif kind == "list12":
+        # a list of 12 single-variable items (more than 10: per-item transformers get keys "0".."11")
+        def items(rows, t0, salt):
+            out = []
+            for i in range(12):
+                M = D.make_matrix(rows, 2, "geometric", 1.0, cplx, seed, salt=salt + i) * (1 + i)
+                out.append(D.da_2d(M, "time", "x%d" % i, scoord=np.arange(t0, t0 + rows), fcoord=[10 * i, 10 * i + 1], name="item%d" % i))
+            return out
+        X, Xn = items(n, 0, 200), items(nn, 100, 300)
     elif kind == "nan":
         X = X.where(X.lon != X.lon[1].item() ) if False else X.where(~((X.lat == 0.0) & (X.lon == 30.0)))
         Xn = Xn.where(~((Xn.lat == 0.0) & (Xn.lon == 30.0)))
@@ -288,6 +305,13 @@ def rounds(tier, seed):
                 for c in CODECS:
                     for ph in ("", "+ph"):
                         frontier.append(dict(model=mname, input=k, attrs=a, history=["codec:%s%s" % (c, ph)], leaf=True))
+    # input structures that only matter for the (de)serialisation itself: every codec at depth 1
+    for mname in (["EOF", "MCA"] if tier == "quick" else ["EOF", "MCA", "EOFRotator", "CPCCARotator", "POP"]):
+        for k in ("aux", "list12"):
+            for c in CODECS:
+                for ph in ("", "+ph"):
+                    frontier.append(dict(model=mname, input=k, attrs="none", history=["codec:%s%s" % (c, ph)], leaf=True))
+            frontier.append(dict(model=mname, input=k, attrs="none", history=["compute", "codec:direct"], leaf=True))
     seen = {}
     level = 1
     while frontier:
